@@ -8,8 +8,9 @@
 //!                          zone): wait for its "Failed to reload" message instead
 //!   X:<zone>;...           same with a syntactically broken configuration file
 //! <zone> = <name>/<class>/<path id>/<state>, state = ok.<serial>.<mtime> | bad.<mtime> | missing;
-//! the first zone of every S step is a unique sentinel zone: the new catalog is in place (it is
-//! swapped atomically) as soon as the sentinel answers.
+//! the first zone of every step is a sentinel zone (renamed by this runner to a name unique to the
+//! process, case and step): the new catalog is in place (it is swapped atomically) as soon as the
+//! sentinel answers.
 //! Output: "ok" + per step "[r1,r2,...]": per probe `<zone>:<serial>` (the SOA of the zone that
 //! answered), `servfail` or `refused`.
 use std::io::{BufRead, BufReader, Write};
@@ -251,7 +252,8 @@ fn wait_sentinel(sock: &UdpSocket, d: &mut Daemon, z: &ZoneSpec, id: &mut u16) -
     while Instant::now() < deadline {
         *id = id.wrapping_add(1);
         if let Some(Answer::Zone(..)) = query(sock, d.port, &z.name, z.class, *id) {
-            return true;
+            // the answer must come from OUR daemon: it has to be alive
+            return matches!(d.child.try_wait(), Ok(None));
         }
         if let Ok(Some(_)) = d.child.try_wait() {
             return false;
@@ -288,9 +290,15 @@ fn run_case(f: &[&str], daemon: &str, scratch: &Path, serial: usize) -> String {
     let mut id: u16 = 1;
     let mut out = String::from("ok");
     let mut d: Option<Daemon> = None;
+    let mut step_no = 0usize;
     for step in &f[1..] {
         let kind = &step[..1];
-        let zones: Vec<ZoneSpec> = step[2..].split(';').map(parse_zone).collect();
+        let mut zones: Vec<ZoneSpec> = step[2..].split(';').map(parse_zone).collect();
+        // The sentinel gets a name unique to this runner process, case and step, so that no other
+        // daemon (another shard that raced for the same port) can ever answer for it. It is not
+        // among the probes, so the output does not depend on the renaming.
+        step_no += 1;
+        zones[0].name = format!("zz{}p{}n{}.", step_no, std::process::id(), serial);
         match d.as_mut() {
             None => {
                 assert!(kind == "S", "the first step must be a valid configuration");
